@@ -26,7 +26,7 @@ ASSUMPTIONS = [
     "while a before-Deferred is unfired, and all of them have run by the time the last Deferred firing returns",
 ]
 MIN = {"quick": {"evaluations": 380000, "nontrivial": 380000, "outcomes": 14},
-       "thorough": {"evaluations": 4000000, "nontrivial": 3000000, "outcomes": 8}}
+       "thorough": {"evaluations": 9300000, "nontrivial": 9300000, "outcomes": 15}}
 
 PHASES = ("before", "during", "after")
 KINDS = {"before": ("none", "raise", "defer", "fired", "failed"), "during": ("none", "raise", "defer"),
